@@ -62,7 +62,7 @@ func (h *Hist) initTwin() {
 	var ctl *controller.Controller
 	outcome := protect(func() error {
 		var err error
-		ctl, err = controller.VerifNewController(controller.Opts{K8SClient: tw.k8s, NodeGroups: h.cfgs, CloudProviderBuilder: simBuilder{shell}, DryMode: h.globalDry}, tw.podL, tw.nodeL)
+		ctl, err = controller.VerifNewController(controller.Opts{K8SClient: tw.k8s, NodeGroups: h.cfgs, CloudProviderBuilder: simBuilder{shell}, DryMode: h.globalDry, ScanInterval: h.scanInterval}, tw.podL, tw.nodeL)
 		return err
 	})
 	if outcome != "ok" {
